@@ -116,4 +116,12 @@ def specGlobU (m : Matcher) (fs : Fs) (univ : List Name) (noglob : Bool) (field 
   let found := ((tuples m univ (cs.1 :: cs.2)).filter (witness m fs [] cs.1 cs.2)).map joinPath
   if noglob || found.isEmpty then [removeQuotes field] else sortDedup found
 
+/-- Spec of the whole step: in `Multiple` mode each field is replaced, in order, by the pathnames it
+    stands for (or by itself, quotes removed); in `Single` mode no field is ever globbed. -/
+def specFieldsU (m : Matcher) (fs : Fs) (univ : List Name) (noglob : Bool) (mode : Mode)
+    (fields : List (List AttrChar)) : List Path :=
+  match mode with
+  | Mode.multiple => fields.flatMap (specGlobU m fs univ noglob)
+  | Mode.single => fields.map removeQuotes
+
 end YashModel.Glob
